@@ -9,6 +9,7 @@ REPO = os.environ.get("VERIF_REPO", "/repo")
 SCRATCH = os.path.join(ROOT, ".work", "selftest-%d" % os.getpid())
 os.environ["VERIF_WORKROOT"] = os.path.join(SCRATCH, "work")
 os.environ["VERIF_REPLAYROOT"] = os.path.join(SCRATCH, "replays")
+os.environ["VERIF_EVIDENCEROOT"] = os.path.join(SCRATCH, "evidence")
 
 def sh(cmd, cwd=None):
     p = subprocess.run(cmd, cwd=cwd, shell=isinstance(cmd, str), stdout=subprocess.PIPE, stderr=subprocess.STDOUT, env=dict(os.environ, VERIF_REPO=REPO))
